@@ -114,6 +114,48 @@ CHECKS = {
             TECH, '7/C18'),
 }
 
+CHECKS.update({
+    'C03': ('All labelled structures with <=2 states x all 1772 CTL* state formulas with <=2 nodes, '
+            'representatives x (a block of) the 6510 three-node formulas over {p,q}, 3-state structures '
+            'over one atom, 26 selected 4-5 node shapes, 3-ary families, structures whose labels collide '
+            'with the fresh atoms the checker invents: CTLS.modelcheck must equal the innermost-first '
+            'product semantics. Shapes force every branch of the quantifier elimination (CTL-shaped, '
+            'LTL-only A, LTL-only E, quantifier under a temporal operator, Boolean roots).',
+            'Trusted: mc/refsem.py Sem; top-level quantified verdicts certified by witness lassos '
+            'evaluated literally, negative verdicts swept over all bounded lassos for n<=2.', TECH, '7/C03'),
+    'C04': ('No reference: equations between results of the real checkers. Every ordered pair of a '
+            '16-formula pool instantiated in the Boolean, duality and fixpoint-expansion laws for CTL '
+            'and CTL* (LTL: conjunction, double negation, U/R/G expansion, duality) on all 148 labelled '
+            'structures with <=2 states and 3-state representatives; every shared-fragment formula of '
+            'size<=1 through every documented route (native, CTL* object, other logic\'s object, text '
+            'with shared parser, text with parser=None).',
+            'An undocumented route (CTL-typed object into LTL.modelcheck) may raise TypeError; if it '
+            'returns it must agree.', TECH, '7/C04'),
+    'C06': ('Schedules of a sequential program = iteration orders of its unordered collections. For '
+            'every instance: all bijections onto 5 naming schemes, S/R list orders, label containers, '
+            'atom renamings, unreachable extensions; every permutation inside the height tie groups of '
+            'the LTL closure (deviation-bounded when too many) and every successor-set order, both owned '
+            'by harness-side wrappers; all 24 renamings of 4-state structures; the result mapped back '
+            'must equal the base result. Hash seeds: fixed instance list in fresh interpreters.',
+            'The seed space (2^32) is sampled, not enumerated; what is enumerated is the set of orders '
+            'a seed can induce where order can matter. No reference semantics used.', TECH, '7/C06'),
+    'C07': ('Stateless search over call histories: every ordered pair of a 294-operation alphabet '
+            '(checker x structure x formula x object/text/text-without-parser x F) and every triple of a '
+            'sub-alphabet, all calls of a history sharing one live pool of caller-owned objects; after '
+            'every call the deep snapshot of all structures, formula objects, F lists and texts is '
+            'unchanged and the result equals the result of the same call in a pristine forked '
+            'interpreter.', 'Trusted: fork-based isolation baseline. A pure implementation has one '
+            'reachable pool state; the count of distinct snapshots is reported.', TECH_HIST, '7/C07'),
+    'C19': ('Histories {call, mutate the returned set (3 ways), call again; two calls, mutate the first} '
+            'on a matrix of 7 state-naming schemes (ints, strings, tuples, frozensets, mixed types, '
+            'formula-like strings, big ints) x 5 labelling schemes (non-string labels, operator '
+            'look-alikes, names colliding with the library\'s fresh atoms, container types) x 3 checkers x '
+            '12 formulas (atoms absent from K, collision-named atoms) x F in {None,[{}],[{s0}]}: result '
+            'is a set of K\'s states, not aliased to K, unaffected by mutation of earlier results, and '
+            'no exception escapes.', 'Exactness additionally demanded where names do not collide with '
+            'printed formulas. Well-formed queries only, so TypeError is a violation too.', TECH_HIST, '7/C19'),
+})
+
 NOT_YET = {}
 
 
